@@ -325,6 +325,29 @@ pub fn run(tier: Tier) -> i32 {
             cases.push(Case { label: format!("mixed codes, filter {:?} count", l), input: Input::Bytes(b.clone()), args: a, exit: Exit::Code(9), total: None, shown: Some(Shown::Exactly(n)), must_not_exist: vec![] });
         }
     }
+    // ---- a detector other than ITS (system id 3): the code filter works on its errors too
+    {
+        let mut b = clean_bytes.clone();
+        let (walked, _) = stream::walk(&b);
+        for w in &walked {
+            b[w.offset as usize + 5] = 3;
+        }
+        {
+            // reserved bits of RDH3 in the third RDH: [E10]
+            let o = walked[2].offset as usize;
+            let mut r = fp_model::rdh::Rdh::decode(&b[o..o + 64]);
+            r.rdh3_reserved = 0x0101;
+            b[o..o + 64].copy_from_slice(&r.encode());
+        }
+        for (codes, n) in [(vec!["10"], 1u64), (vec!["11"], 0), (vec!["10", "11"], 1), (vec!["1"], 0)] {
+            for mode in [s(&["check", "sanity"]), s(&["check", "all"])] {
+                let mut a = mode.clone();
+                a.extend(s(&["-E", "9", "-w"]));
+                a.extend(codes.iter().map(|c| c.to_string()));
+                cases.push(Case { label: format!("non-ITS data with one E10, filter {:?}", codes), input: Input::Bytes(b.clone()), args: a, exit: Exit::Code(9), total: Some(1), shown: Some(Shown::Exactly(n)), must_not_exist: vec![] });
+            }
+        }
+    }
     // ---- an error cap does not switch off the end-of-run custom checks: a `cdps` value no stream can have fails whether
     //      the run was cut short by the cap or not, is shown with `-w 9001` and sets the exit status
     for cap in ["1", "2", "4", "1000"] {
